@@ -1,6 +1,7 @@
 import PyramidModel.Introspect
 import PyramidModel.Actions
 import PyramidModel.Lemmas.IntrospectSpec
+import PyramidModel.Lemmas.IntrospectProbeSpec
 import PyramidModel.Lemmas.Introspect
 import PyramidModel.Lemmas.IntrospectFlag
 import PyramidModel.Lemmas.IntrospectRel
@@ -18,51 +19,43 @@ Part II (model, unbounded): the Introspector state machine and the registration 
 namespace Pyr.Introspect
 open Pyr.Gen.C20
 
-/-! ## Part I — the generated table against the specification -/
+/-! ## Part I — what every directive records, probed on the running code, against the specification
 
-/-- The translator met no shape it does not understand (an `unknown` entry would make every statement below
-meaningless, so it is a theorem of its own). -/
-theorem no_unknown_shapes : ∀ d ∈ directives, d.unknown = [] := by decide +kernel
+`probeTable` is regenerated on every run by *calling* each directive with pairwise different sentinel arguments on a
+real Configurator of the tree under test and reading the introspectables its pending actions carry (57 calls, every
+directive and every branch that changes what is recorded).  No obligation rests on the shape of the source text any
+more (the AST slice `directives` is kept in Gen/C20.lean as information only), so behaviour-preserving rewrites of the
+directive bodies are silent. -/
 
-/-- The directives that build introspectables are exactly the specified ones, in source order. -/
-theorem same_directives :
-    directives.map (fun d => (d.file, d.name)) = specDirectives.map (fun s => (s.file, s.name)) := by
+/-- the probe ran, and every call could be committed -/
+theorem probe_ran : probeStatus = "ok" ∧ probeTable.all (fun c => c.commit == "ok") = true := by decide +kernel
+
+/-- **recorded_table_as_specified** — the whole probed table equals the hand-written one
+(`Lemmas/IntrospectProbeSpec.lean`): per call the actions (discriminator, phase, which introspectables they carry),
+per introspectable category, discriminator, title, type name, *every key with its value in terms of the arguments*,
+and the recorded relations in order. -/
+theorem recorded_table_as_specified : probeTable = specProbeTable := by decide +kernel
+
+/-- **keys_hold_their_parameters** — the reading rule of `IntrospectSpec.lean` holds of the specified table: every
+recorded key of an introspectable whose category a directive body specifies is a specified key of that body, and
+where the specification says "parameter `p`" (untouched or resolved) the recorded value mentions no other
+parameter's sentinel — the calls pass pairwise different sentinels, so any swap (F-C20a: `check_origin` holding
+`allow_no_origin`) would show — and a specified constant is that constant. -/
+theorem keys_hold_their_parameters : ∀ c ∈ specProbeTable, callAgrees specDirectives c = true := by decide +kernel
+
+/-- every specified directive body is exercised by at least one probed call -/
+theorem same_directives : ∀ s ∈ specDirectives, probeTable.any (fun c => c.slice == s.name) = true := by
   decide +kernel
 
-/-- **keys_hold_their_parameters** — for every directive, the `intr[key] = …` / `intr.update(…)` entries in it
-are, as a set, exactly the specified ones (the order of independent assignments is free, introspectable
-variables are identified by the position of their creation): each key belongs to the specified
-introspectable, sits in the specified scope under the specified guards, and its value has the
-specified shape — the same-named (or the specified) parameter untouched, the parameter after exactly
-`p = self.maybe_dotted(p)`, the specified constant, the specified normalised expression *together with the
-complete list of assignments that define the locals it mentions*, or a value computed inside the action
-callable.  (Reverting F-C20a makes `check_origin ↦ allow_no_origin`, which is not `.param "check_origin"`.) -/
-theorem keys_hold_their_parameters :
-    ∀ p ∈ directives.zip specDirectives, keysOk p.1 p.2 = true := by decide +kernel
-
-/-- category, discriminator (with the assignments defining it), title, type name, guards of every
-`self.introspectable(...)`, and the directive's parameter list -/
-theorem categories_and_discriminators_as_specified :
-    ∀ p ∈ directives.zip specDirectives, introsOk p.1 p.2 = true := by decide +kernel
-
-/-- every `.relate(category, discriminator)` is a specified one (view→route, mapper/template/permission→view,
-template→renderer factory, route factory→route), under the specified guards -/
-theorem relations_as_specified :
-    ∀ p ∈ directives.zip specDirectives, relsOk p.1 p.2 = true := by decide +kernel
-
-/-- every `action(...)` call: discriminator text, `order=`, guards, and exactly which introspectables it is
-given; and every introspectable a directive builds reaches an action -/
-theorem introspectables_reach_their_action :
-    (∀ p ∈ directives.zip specDirectives, actsOk p.1 p.2 = true) ∧ (∀ d ∈ directives, allReach d = true) := by
-  decide +kernel
-
-/-- **every_directive_records_its_call_site** — every body that builds an introspectable is reached from the
-specified public directives only (plus pyramid's own, exempt, call sites), and every one of those directives
-carries `@action_method`: the outermost wrapper is the one whose `traceback.extract_stack` frame becomes the
-`action_info` of the introspectables, so it must be the method the statement calls.  (Reverting any hunk of
-4633e93 — `add_permission`, `add_cache_buster`, `add_tween` — gives an entry with `false`.) -/
+/-- **every_directive_records_its_call_site** — in every probed call, every action that carries introspectables has
+the calling statement as its action info (file and line of the probe's own statement): the outermost
+`action_method` wrapper is the method the statement calls.  (Reverting any hunk of 4633e93 gives `false`.) -/
 theorem every_directive_records_its_call_site :
-    ∀ p ∈ directives.zip specDirectives, entriesOk p.1 p.2 = true := by decide +kernel
+    ∀ c ∈ probeTable, ∀ a ∈ c.actions, a.2.2.2 ≠ [] → a.2.2.1 = true := by decide +kernel
+
+/-- every introspectable a call built is carried by one of its actions, and only by one -/
+theorem introspectables_reach_their_action :
+    ∀ c ∈ probeTable, (c.actions.flatMap (·.2.2.2)) = List.range c.intros.length := by decide +kernel
 
 /-- The `introspection` flag and the registration step, as **probed on the running code** of the tree under test
 (extract/c20.py `PROBE`, a child interpreter; a behaviour-preserving rewrite changes nothing here, a probe that cannot
@@ -82,13 +75,13 @@ theorem flag_plumbing :
 
 /-- **documented_categories** — the category headings of docs/narr/introspector.rst are regenerated on every run
 (`docCategories`, `docStatus = "ok"`: section found, every heading well-formed, no duplicates).  Every category a
-directive records is one of those headings or one of the eight category expressions the chapter is silent about
+directive records (in the probed table) is one of those headings or one of the categories the chapter is silent about
 (`undocumentedCategories`); every heading is recorded by some directive; the specification's documented name of
 each introspectable is a heading and is literally the category in the source.  (Full since /repo 4ce8e67 renamed
 the heading ``default csrf options`` to what the code records — finding F-C20c; reverting that commit, or renaming
 the category in security.py, makes this fail.) -/
 theorem documented_categories :
-    docStatus = "ok" ∧ docOk docCategories undocumentedCategories directives specDirectives = true := by
+    docStatus = "ok" ∧ docOk docCategories undocumentedCategories probeTable specDirectives = true := by
   decide +kernel
 
 /-! ## Part II — registration: exactly the executed actions' introspectables, pointing at their statement -/
